@@ -549,6 +549,102 @@ def same_id_clients(d):
     d.reach()
 
 
+@meta(bounds="an answer at the size boundary: ReadProperty of an object name of 33..37 characters (a ComplexAck of 48..52 octets) "
+             "with max-response 50 octets toward a device that cannot segment: an answer that fits the announced size is GIVEN "
+             "(one unsegmented ComplexAck), one that does not is refused with an abort - exactly one reply either way",
+      outside="other sizes",
+      stubs=STUBS)
+def fitting_answer(d):
+    n = d.pick([33, 34, 35, 36, 37], 'name_length')
+    w = World()
+    lan = nl.FaultLAN([], world=w)
+    dev = Device(nl.make_device("dut", 20, segmentationSupported="noSegmentation", maxApduLengthAccepted=50), lan)
+    av = AnalogValueObject(objectIdentifier=("analogValue", 1), objectName="n" * n, presentValue=72.5,
+                           statusFlags=[0, 0, 0, 0], units="degreesFahrenheit")
+    dev.add_object(av)
+    peer = nl.RawPeer(PEER, lan)
+    inv = 0x33
+    peer.send(dev.address, nl.frame(bytes([0x00, 0x00, inv, 0x0C, 0x0C, 0x00, 0x80, 0x00, 0x01, 0x19, 0x4D]), True))
+    w.run()
+    rs = replies(peer)
+    if len(rs) != 1 or rs[0]["invoke"] != inv:
+        raise Violation("not-exactly-one-reply", n=len(rs), name_length=n)
+    fits = 15 + n <= 50        # 3 octets of header, 12 of framing, the characters
+    if fits and (rs[0]["type"] != 3 or rs[0]["seg"]):
+        raise Violation("fitting-answer-refused", name_length=n, octets=15 + n, got=rs[0]["type"])
+    if not fits and rs[0]["type"] != 7:
+        raise Violation("oversize-answer-not-aborted", name_length=n, octets=15 + n, got=rs[0]["type"])
+    check_health(d, w, lan, dev, peer, "fitting-answer")
+    d.reach()
+
+
+@meta(bounds="two stations with the SAME MAC octet, one on the device's LAN and one on remote network 5 behind a router, use the same "
+             "invoke ID: the local one has begun a segmented request (first segment acknowledged) when the router relays a "
+             "plain ReadProperty from the remote one: the remote station gets its answer through the router, the local "
+             "transfer is not disturbed (its next segment is acknowledged)",
+      outside="more than two stations",
+      stubs=STUBS)
+def same_mac_clients(d):
+    w, lan, dev, peer, av = make_world()
+    router = nl.RawPeer(50, lan)
+    inv = d.pick([0x42, 0x00], 'invoke')
+    first = bytes([0x0C, 0x05, inv, 0x00, 0x02, 0x0C, 0x0C, 0x00, 0x80, 0x00, 0x01])
+    peer.send(dev.address, nl.frame(first, True))
+    w.run(until=w.clock)
+    acks = [x for x in replies(peer) if x["type"] == 4]
+    if len(acks) != 1:
+        raise Violation("first-segment-not-acknowledged", n=len(acks))
+    router.send(dev.address, bytes([0x01, 0x0C, 0x00, 0x05, 0x01, PEER]) + read_pv(inv))
+    w.run(until=w.clock)
+    got = []
+    for (src, data) in router.received:
+        nn, a = wire.parse_frame(data)
+        if a is not None:
+            got.append((nn, a))
+    if len(got) != 1 or got[0][0]["dnet"] != 5 or got[0][0]["dadr"] != bytes([PEER]) or got[0][1]["type"] != 3 \
+            or got[0][1]["invoke"] != inv or bytes(got[0][1]["payload"]) != PV_ACK_BODY:
+        raise Violation("remote-twin-not-answered", n=len(got), to_local=[(x["type"], x["invoke"]) for x in replies(peer)])
+    if [x["type"] for x in replies(peer)] != [4]:
+        raise Violation("local-transfer-disturbed", got=[x["type"] for x in replies(peer)])
+    peer.send(dev.address, nl.frame(bytes([0x08, 0x05, inv, 0x01, 0x02, 0x0C, 0x19, 0x55]), True))
+    w.run()
+    kinds = [x["type"] for x in replies(peer)]
+    if kinds[:2] != [4, 4] or len(kinds) != 3 or kinds[2] != 3:
+        raise Violation("local-transfer-disturbed", got=kinds, after="last segment")
+    del peer.received[:]
+    check_health(d, w, lan, dev, peer, "same-mac-clients")
+    d.reach()
+
+
+@meta(bounds="a device bound without a network number hears Network-Number-Is twice (numbers 1..3 symbolic, equal or different) and "
+             "then a ReadProperty relayed by a router from a station on one of those networks (symbolic): it is answered "
+             "through the router - unless that network is the one the device now believes to be its own",
+      outside="more than two announcements",
+      stubs=STUBS)
+def renumbered(d):
+    w, lan, dev, peer, av = make_world()
+    router = nl.RawPeer(50, lan)
+    n1 = d.pick([1, 2, 3], 'first_number')
+    n2 = d.pick([1, 2, 3], 'second_number')
+    for n in (n1, n2):
+        router.send(nl.LocalBroadcast(), bytes([0x01, 0x80, 0x13, 0x00, n, 0x01]))
+        w.run()
+    snet = d.pick([1, 2, 3], 'requesters_network')
+    d.assume(snet != n2)
+    del router.received[:]
+    router.send(dev.address, bytes([0x01, 0x0C, 0x00, snet, 0x01, 0x07]) + read_pv(0x42))
+    w.run()
+    got = []
+    for (src, data) in router.received:
+        nn, a = wire.parse_frame(data)
+        if a is not None:
+            got.append((nn, a))
+    if len(got) != 1 or got[0][0]["dnet"] != snet or got[0][1]["type"] != 3 or bytes(got[0][1]["payload"]) != PV_ACK_BODY:
+        raise Violation("routed-request-not-answered-after-renumbering", n=len(got), first=n1, second=n2, requester=snet)
+    check_health(d, w, lan, dev, peer, "renumbered")
+    d.reach()
+
+
 @meta(bounds="garbage that claims to be relayed from a remote network: station G sends a frame whose NPCI names source "
              "network 5 (SADR 7) followed by a concrete first APDU octet and 0..n symbolic octets (or nothing); "
              "then the real router R relays a valid ReadProperty from network 5 (from station 7 or 9); order of the two symbolic",
@@ -752,6 +848,9 @@ def instances(tier):
     out.append(Inst(half_read, {}, budget=200 if q else 600, path_timeout=60))
     out.append(Inst(known_client, {}, budget=200 if q else 600, path_timeout=60))
     out.append(Inst(same_id_clients, {}, budget=120 if q else 300, path_timeout=60))
+    out.append(Inst(fitting_answer, {}, budget=120, path_timeout=60))
+    out.append(Inst(same_mac_clients, {}, budget=120, path_timeout=60))
+    out.append(Inst(renumbered, {}, budget=120, path_timeout=60))
     for which in ODD:
         out.append(Inst(odd_requests, dict(which=which), budget=120 if q else 300, path_timeout=60))
     if not q:
